@@ -63,6 +63,41 @@ def scratch_root():
     return '/tmp'
 
 
+class RunHung(BaseException):
+    """Raised in the main thread by ``watchdog`` (not an Exception: code
+    under test that catches Exception and tries again cannot swallow it)."""
+
+
+class watchdog:
+    """``with watchdog(30):`` -- the body, code without threads run by the
+    main thread of a shard process, is interrupted with RunHung when it has
+    not ended after that many seconds of real time (typical body:
+    milliseconds).  No-op outside the main thread."""
+
+    def __init__(self, seconds):
+        self.seconds = seconds
+        self.armed = False
+
+    def _alarm(self, _sig, _frm):
+        raise RunHung()
+
+    def __enter__(self):
+        import signal
+        import threading
+        if threading.current_thread() is threading.main_thread():
+            self.old = signal.signal(signal.SIGALRM, self._alarm)
+            signal.setitimer(signal.ITIMER_REAL, self.seconds)
+            self.armed = True
+        return self
+
+    def __exit__(self, *exc):
+        import signal
+        if self.armed:
+            signal.setitimer(signal.ITIMER_REAL, 0)
+            signal.signal(signal.SIGALRM, self.old)
+        return False
+
+
 def _limit_memory():
     '''A damaged pickle may ask for an absurd allocation: the code under test
     must see MemoryError, not take the machine (and the check) down.'''
